@@ -192,7 +192,8 @@ pub fn record(opts: &Opts) -> Result<(), String> {
     // A. exhaustive core: every 1-, 2-tuple of strings of length <= 3 and every
     //    3-tuple of strings of length <= 2 over {a, b, SP, LF}; line and word level.
     let s3 = all_strings(b"ab \n", 3);
-    let s2 = all_strings(b"ab \n", 2);
+    // 3-tuples: quick uses the 3-letter alphabet {a, SP, LF}, thorough all four
+    let s2 = all_strings(if thorough { b"ab \n" } else { b"a \n" }, 2);
     let mut n_a = 0usize;
     for a in &s3 {
         for api in ["by_line", "by_word", "unrefined"] {
